@@ -25,6 +25,12 @@ PROPERTIES.update({
     "C02": {
         "verus": ["C02_C05_assembly", "C02_unnesting"],
         "kani_quick": [], "kani_thorough": [],
+        "bounded_native": [
+            {"unit": "b_generate_constructed", "functions": "Backend::generate_module -> generate_tld -> generate_sequence_or_set / generate_choice -> format_sequence_or_set_members, format_choice_options, format_sequence_member, format_tag, join_annotations (generator/rasn: quote!/TokenStream code)",
+             "bound": "IR built directly: module default {AUTOMATIC, IMPLICIT, EXPLICIT} x EXTENSIBILITY IMPLIED on/off x {SEQUENCE, SET, CHOICE} x 1..=3 BOOLEAN components (each OPTIONAL or not, tagged or not) x extension marker absent or at any index 0..=n, followed by a second module with its own extensibility default on the same backend (exhaustive product, 10248 cases); checks the generated token text"},
+            {"unit": "b_c02_recursion_marking", "functions": "ToplevelDefinition::mark_recursive -> ASN1Type::mark_recursive / ASN1Type::recurses (validator/linking/mod.rs)",
+             "bound": "2..=3 mutually referencing SEQUENCE/SET/CHOICE definitions with 1..=2 components (BOOLEAN, reference, SEQUENCE OF reference), marked in the validator's order; exhaustive prefix then seeded random sample up to the evaluation limit"},
+        ],
         "unverified": [
             "the left-to-right parse of component lists (nom combinators in lexer/sequence.rs, lexer/choice.rs)",
             "emission of one field/variant per member, Option<_>, default fn, Box<_>, set marker, SetOf/SequenceOf selection (generator/rasn/utils.rs, builder.rs: TokenStream code); only the hoisting decision Rasn::needs_unnesting is under contract, with ASN1Type::constraints() left uninterpreted",
@@ -35,6 +41,10 @@ PROPERTIES.update({
     "C05": {
         "verus": ["C02_C05_assembly"],
         "kani_quick": ["k_c03_module_header_from"], "kani_thorough": [],
+        "bounded_native": [
+            {"unit": "b_generate_constructed", "functions": "Backend::generate_module -> generate_tld -> generate_sequence_or_set / generate_choice -> format_sequence_or_set_members, format_choice_options, format_sequence_member, format_tag, join_annotations (generator/rasn: quote!/TokenStream code)",
+             "bound": "IR built directly: module default {AUTOMATIC, IMPLICIT, EXPLICIT} x EXTENSIBILITY IMPLIED on/off x {SEQUENCE, SET, CHOICE} x 1..=3 BOOLEAN components (each OPTIONAL or not, tagged or not) x extension marker absent or at any index 0..=n, followed by a second module with its own extensibility default on the same backend (exhaustive product, 10248 cases); checks the generated token text"},
+        ],
         "unverified": [
             "extension_group parser (lexer/sequence.rs:71-109, nom)",
             "the `i >= first_extension_index` comparisons and #[non_exhaustive] selection in generator/rasn/utils.rs and builder.rs (TokenStream code)",
@@ -64,6 +74,8 @@ PROPERTIES.update({
         "kani_quick": ["k_c03_tagenv_add", "k_c03_asn_tag_from", "k_c03_module_header_from", "k_layout_sentinel_scalars"],
         "kani_thorough": [],
         "bounded_native": [
+            {"unit": "b_generate_constructed", "functions": "Backend::generate_module -> generate_tld -> generate_sequence_or_set / generate_choice -> format_sequence_or_set_members, format_choice_options, format_sequence_member, format_tag, join_annotations (generator/rasn: quote!/TokenStream code)",
+             "bound": "IR built directly: module default {AUTOMATIC, IMPLICIT, EXPLICIT} x EXTENSIBILITY IMPLIED on/off x {SEQUENCE, SET, CHOICE} x 1..=3 BOOLEAN components (each OPTIONAL or not, tagged or not) x extension marker absent or at any index 0..=n, followed by a second module with its own extensibility default on the same backend (exhaustive product, 10248 cases); checks the generated token text"},
             {"unit": "b_c03_apply_tagenv_lists", "functions": "ToplevelDefinition::apply_tagging_environment (intermediate/mod.rs)",
              "bound": "module default in {AUTOMATIC, IMPLICIT, EXPLICIT} x kind in {SEQUENCE, SET, CHOICE, primitive} x tag on the assignment x 0..=3 components, each untagged / keyword-less / IMPLICIT / EXPLICIT (exhaustive product, 3108 cases)"},
         ],
@@ -79,6 +91,8 @@ PROPERTIES.update({
         "kani_quick": ["k_c04_add_assign"],
         "kani_thorough": [],
         "bounded_native": [
+            {"unit": "b_c04_value_references", "functions": "ToplevelDefinition::has_constraint_reference -> ASN1Type::contains_constraint_reference -> Constraint/ElementOrSetOperation/SubtypeElements::has_cross_reference, and ToplevelDefinition::link_constraint_reference (validator/linking)",
+             "bound": "single value or range with each end literal / value reference / MIN-MAX, as INTEGER type assignment, inside SIZE(..) of OCTET STRING, as SEQUENCE component and in a union (exhaustive, 60 cases); run exactly as Validator::validate does"},
             {"unit": "b_c04_integer_set_expression", "functions": "TryFrom<&Constraint> for PerVisibleRangeConstraints -> fold_constraint_set, intersect_single_and_range, union_single_and_range, compare_optional_asn1values / union_optional_asn1values (per_visible.rs)",
              "bound": "expressions a | a op b | a op (b op c) over INTEGER operands (single value or range, each end one of 7 points {-129,-1,0,1,5,255,256} or MIN/MAX), operators {|, ^, EXCEPT}; exhaustive prefix then seeded random sample up to the evaluation limit; empty intersections excluded"},
         ],
